@@ -2,6 +2,7 @@
 import base64, hashlib, json, re
 from vlib import *
 ERR = "(error)"
+NSHARD = 4
 
 VALID_MB = [b"\xc3\xa9", b"\xe2\x82\xac", b"\xf0\x9f\x98\x80", b"e\xcc\x81", b"\xe4\xb8\xad", b"\xc2\xa0", b"\xef\xbf\xbd", b"\xdf\xbf", b"\xf4\x8f\xbf\xbf"]
 CASELESS_MB = [b"\xe2\x82\xac", b"\xf0\x9f\x98\x80", b"\xe4\xb8\xad", b"\xcc\x81", b"\xc2\xa0"]
@@ -121,11 +122,14 @@ def run(ctx):
                        "surrogate, > U+10FFFF, truncated), empty; indices negative/zero/beyond length; compared byte-exact (hex) between mlr and the Coq model under "
                        "vm_compute; oracle: independent python implementations, hashlib/base64/re/%-formatting, inverse identities on mlr's own outputs")
     ctx.cov["trusted_base"] = ["Coq 8.16.1 kernel + vm_compute", "no axioms", "python harness",
-                               "Go unicode/utf8 decoding transliterated into the model, tied by correspondence", "strings.ToUpper/ToLower modelled on ASCII + caseless characters only"]
-    ctx.assumptions = ["regex functions, hashes, base64, latin1, printf verbs: oracle comparison only (no Coq model): partial",
+                               "Go unicode/utf8 decoding transliterated into the model, tied by correspondence", "strings.ToUpper/ToLower modelled on ASCII + caseless characters only",
+                               "Go encoding/base64, fmt (one directive) and strconv fixed-precision rendering modelled, tied by correspondence"]
+    ctx.assumptions = ["regex functions (sub/gsub/regextract/=~ captures) and the sub/gsub verbs: oracle comparison with python re only (no Coq model): partial",
+                       "printf: %g/%G, %_d/%_f, '#' on floats, '*'/'[n]', format-values/--ofmt are outside the Coq model (oracle only or not run); decimal text -> binary64 is done by the harness (struct.pack)",
+                       "digest models are the standards (RFC 1321, FIPS 180-4) in Gallina, pinned by their test vectors; no cryptographic claim",
                        "full Unicode case mapping is outside the model"]
-    forbidden_gate(ctx, ["Base", "C15"])
-    ok, why = check_props(ctx, "C15/Props.v", ["C15/Harness.vo", "C15/Proofs.vo", "C15/Utf8Proofs.vo", "C01/ProofsJson.vo"])
+    forbidden_gate(ctx, ["Base", "C15"])   # includes ModelCodec/ModelHash/ModelFmt/ModelVerbs and their proofs
+    ok, why = check_props(ctx, "C15/Props.v", ["C15/Harness.vo", "C15/Harness2.vo", "C15/Proofs.vo", "C15/Utf8Proofs.vo", "C01/ProofsJson.vo"])
     rng = ctx.rng
     terms, meta, oracle_bad = [], [], []
 
@@ -378,6 +382,12 @@ def run(ctx):
     with ctx.timed("impl"):
         regex_sequence_cases(ctx, bad)
         json_cases(ctx, case, bad)
+        from checks import c15_codec
+        c15_codec.run_part(ctx, case, bad, mlr_rows, P)
+        from checks import c15_fmt
+        c15_fmt.run_part(ctx, case, bad, mlr_rows, P, ref_fmtnum)
+        from checks import c15_verbs
+        c15_verbs.run_part(ctx, case, bad, mlr_rows, P)
     for i in (0, len(meta) // 3, len(meta) // 2, len(meta) - 1):
         ctx.sample(meta[i])
     if not ok:
@@ -387,7 +397,7 @@ def run(ctx):
             ctx.violation({"broken": why}, found_input=False)
         return
     with ctx.timed("coq_cases"):
-        badi, err = coq_eval_mismatches(ctx, "C15", "C15.Model C15.Harness", "Z * Z * Z * bytes * bytes * bytes * bytes", "chk", terms, shard=len(terms) // 2 + 1)
+        badi, err = coq_eval_mismatches(ctx, "C15", "C15.Model C15.Harness C15.Harness2", "Z * Z * Z * bytes * bytes * bytes * bytes", "chk2", terms, shard=len(terms) // NSHARD + 1)
     ctx.cov["correspondence"] = {"cases": len(terms), "mismatches": len(badi)}
     if err:
         ctx.violation({"broken": "correspondence-evaluation", "detail": err[-2000:]}, found_input=False)
@@ -396,7 +406,7 @@ def run(ctx):
         if i < 0 or rep >= 5:
             continue
         rep += 1
-        ctx.violation({"broken": "correspondence C15.Harness.chk (model and implementation differ)", "case": meta[i], "term": terms[i][:400]}, found_input=False)
+        ctx.violation({"broken": "correspondence C15.Harness2.chk2 (model and implementation differ on this input)", "case": meta[i], "term": terms[i][:400]}, found_input=True)
     seen = set()
     for b in oracle_bad:
         if b["class"] in seen:
